@@ -14,7 +14,9 @@ META = {
     "level": "model_checking",
     "level_text": "TLC explores, for protocol v4/v5 x statement with/without keyspace x connection keyspace none/same/other x stream "
                   "id space of the pool connections 1 / 2 / default (so that EXECUTE, PREPARE and the re-sent EXECUTE travel under "
-                  "stream id 0 in some behaviours), every "
+                  "stream id 0 in some behaviours) and with / without one speculative execution of an idempotent statement (a "
+                  "second attempt in flight on another node, so that the node last queried is not the node that answers "
+                  "UNPREPARED), every "
                   "sequence of: UNPREPARED answers (up to MaxUnprep, on any host of the plan), the two executor hops, PREPARE answered "
                   "with the same id / another id / an error / silence until the client timeout (and a late answer afterwards) / "
                   "connection loss, pool shutdown between the hops, rows. Checked on the send log and the outcome: one PREPARE per "
@@ -27,7 +29,10 @@ META = {
     "level_note": "Trusted: TLC; the SimConnection/FakeNode/SimExecutor doubles and the independent codec in harness/wire.py; loop-thread "
                   "callbacks atomic; one executor task of the future at a time. With protocol v4 Session.prepare() cannot record a "
                   "statement keyspace, the v4 keyspace cases set PreparedStatement.keyspace after preparing. Other error answers to "
-                  "the EXECUTE, speculative executions and retries are C14-C17.",
+                  "the EXECUTE and retries are C14-C17. Scope: one re-preparation at a time (the second attempt in flight is not "
+                  "answered UNPREPARED while one is under way, nor after the request failed); speculative executions only with "
+                  "the shrunk id spaces (with the default one, which handler _on_timeout finds under a _req_id allocated on "
+                  "another connection is a coincidence of two id counters).",
     "design_ref": "5.3 C19",
 }
 
@@ -72,7 +77,7 @@ def _trace_sig(t, k):
 def run(ctx):
     from harness.replay import reprepare as rr
     nhosts = 2 if ctx.quick else 3
-    consts = {"NHosts": nhosts, "MaxUnprep": 2}        # recorded runs go to 3 UNPREPARED answers
+    consts = {"NHosts": nhosts, "MaxUnprep": 2, "SpecIds": {1} if ctx.quick else {1, 2}}    # recorded runs: 3 UNPREPARED answers
     cfg = tlc.write_cfg(os.path.join(ctx.scratch, "reprepare.cfg"), constants=consts, invariants=INV, properties=PROPS,
                         deadlock=False)
     res, nodes, edges, init = tlc.state_graph("Reprepare", cfg, ctx.scratch, coverage=True, timeout=1200)
@@ -147,7 +152,7 @@ def run(ctx):
         raise tlc.MachineryError("binding self-test failed: forged PREPARE keyspace expectation was not noticed by replay")
 
     # ---- code -> spec: recorded random schedules validated by TLC against Trace_Reprepare.tla
-    tconsts = {"NHosts": 3, "MaxUnprep": 3}
+    tconsts = {"NHosts": 3, "MaxUnprep": 3, "SpecIds": {1, 2}}
     n_tr = 600 if ctx.quick else 12000
     traces, cfgs = [], []
     for _ in range(n_tr):
